@@ -5,8 +5,8 @@ import pipeline as P
 from core import BaseProp, Verdict
 from proto import T
 
-RULE = ('random trees with duplicates at every depth (repeated atoms, repeated compound operands written identically and written '
-        'in another order, WITH pairs) and lists of expressions to combine; Spec: dedup() of the real code equals the reference '
+RULE = ('random trees with duplicates at every depth (repeated atoms, repeated compound operands written identically, written '
+        'in another order, and regrouped siblings that are not repeats: the same licenses and operators in the same order under other parentheses; WITH pairs) and lists of expressions to combine; Spec: dedup() of the real code equals the reference '
         'deduplication dedupRef (stated in Lean: at every node, leaves up, drop each operand whose rendering repeats an earlier '
         'sibling, replace a node left with one operand by it); operand order kept; truth table unchanged; applying it twice changes '
         'nothing; combine_expressions accepts AND/OR in any letter case, refuses anything else with TypeError, keeps duplicates '
@@ -15,11 +15,38 @@ RULE = ('random trees with duplicates at every depth (repeated atoms, repeated c
 ASSUMPTIONS = ['RenderFaithful: unequal operands of one node render differently; the excluded point is known finding K1']
 
 
+def inorder(t):
+    """leaves and operators of a tree, left to right (what is left of a rendering when its parentheses are dropped)"""
+    if t[0] not in ('and', 'or'):
+        return [t]
+    out = []
+    for i, x in enumerate(t[1:]):
+        if i:
+            out.append(t[0])
+        out += inorder(x)
+    return out
+
+
+def rebracket(rng, seq):
+    """another tree with the same leaves and operators in the same order: a random binary bracketing"""
+    if len(seq) == 1:
+        return seq[0]
+    i = rng.randrange(1, len(seq), 2)
+    return [T(seq[i]), rebracket(rng, seq[:i]), rebracket(rng, seq[i + 1:])]
+
+
 def with_dups(rng, t):
     if t[0] not in ('and', 'or'):
         return t
     args = [with_dups(rng, x) for x in t[1:]]
     r = rng.random()
+    if r > 0.85:
+        # a sibling that is NOT a repeat: the same licenses and operators in the same order, grouped differently
+        x = rng.choice(args)
+        if x[0] in ('and', 'or') and len(inorder(x)) >= 5:
+            y = rebracket(rng, inorder(x))
+            if y != x:
+                args.insert(rng.randrange(len(args) + 1), y)
     if r < 0.4:
         x = rng.choice(args)
         args.insert(rng.randrange(len(args) + 1), x)
